@@ -101,6 +101,22 @@ Theorem C07_tq_unlinked_after_completion : forall now0 specs sched i o,
 Proof. exact TimerQueueProofs.unlinked_after_completion. Qed.
 Print Assumptions C07_tq_unlinked_after_completion.
 
+(* beyond the property text: mutual exclusion on mutex_ and absence of lost wake-ups (what makes
+   "cancel promptly" effective: the timer thread never sleeps past the head's due time) *)
+Theorem C07_tq_mutual_exclusion : forall now0 specs sched,
+  let s := fst (run step sched (init now0 specs, [])) in
+  (b2n (thold (tpc s)) + hsum (ops s) + b2n (dhold (dpc s)) = b2n (mlocked s))%nat.
+Proof. exact TimerQueueProofs.mutual_exclusion. Qed.
+Print Assumptions C07_tq_mutual_exclusion.
+
+Theorem C07_tq_no_lost_wakeup : forall now0 specs sched dl,
+  let s := fst (run step sched (init now0 specs, [])) in
+  tpc s = TWaiting dl false ->
+  (exists i o, nth_error (ops s) i = Some o /\ pend o = true) \/
+  match q s with [] => True | x :: _ => exists d, dl = Some d /\ d <= due x end.
+Proof. exact TimerQueueProofs.no_lost_wakeup. Qed.
+Print Assumptions C07_tq_no_lost_wakeup.
+
 (* the hypotheses are met by concrete runs: 30/10/10 ms timers fire at 1010, 1010 (FIFO), 1030;
    thread ids: 0 timer, 1..3 starters, 4..6 stoppers, 7 destroyer, 8 spurious wake-up, 9+k clock +(k+1) *)
 Definition ex_sched : list nat :=
